@@ -44,6 +44,8 @@ def run(rep):
     rep.guard(c06.s10, rep, w, 'C04')  # a declared name that shadows the hidden `self` / `super` makes the code for them load the wrong slot (a module where a class is expected)
     import c09
     rep.guard(c09.f8, rep, w, 'C04')   # the stack height after Fiber.call / Fiber.yield must not depend on the argument's value
+    import c07
+    rep.guard(c07.k4, rep, w)   # `super` inside a lambda / nested function of a method loads the method's receiver, not slot zero of the function it is written in
 
 
 # ---- VM side: bytes consumed ----------------------------------------------------------------------------------
@@ -1097,7 +1099,13 @@ def b15(rep, w):
             if nm.startswith('std::vec::Vec') and nm.rsplit('::', 1)[-1] in ('pop', 'truncate', 'remove', 'drain', 'clear', 'swap_remove', 'split_off', 'retain', 'dedup') and t['args']:
                 org = org or origins(f)
                 flds = operand_fields(f, org, t['args'][0])
-                if 'code' in flds and ('chunk' in flds or f.path.startswith('yarel::chunk::')):
+                pl0 = op_place(t['args'][0])
+                ty0 = f.crate.tstr(pl0.get('t', f.local_ty(pl0['l']))) if pl0 is not None else ''
+                # the code vector (bytes) or the line table of a chunk, reached through a field `chunk`, inside chunk.rs, or through an accessor
+                # that hands out the chunk (Parser::chunk())
+                via_chunk = 'chunk' in flds or f.path.startswith('yarel::chunk::') or \
+                    any(q[0][0] == 'call' and 'Chunk' in f.crate.tstr(f.local_ty(f.blocks[q[0][1]]['t']['dst']['l'])) for q in org.get(pl0['l'], ()) if pl0 is not None)
+                if (('code' in flds and 'u8' in ty0) or 'lines' in flds) and via_chunk:
                     n += 1
                     r.bad('%s / %s on the code vector' % (f.path.replace('yarel::', ''), nm.rsplit('::', 1)[-1]),
                           '%s removes bytes from emitted code: positions recorded earlier (jumps to patch, loop starts, handler offsets) now name other instructions' % f.path, f.loc(t.get('sp')))
